@@ -36,7 +36,7 @@ ASSUMPTIONS = ["shutdown()/close() is called once, by one task; the caller's own
                "thorough: exhaustive over loop iterations of the listed timelines only"]
 REQUIRED_OBS = ["shutdown_from_cancelled_task", "lives_judged", "shutdown_instants_judged", "during_backoff", "during_handshake",
                 "during_connect_in_flight", "steady_state", "reinit_ok", "socket_level",
-                "overlapping_shutdown_calls"]
+                "overlapping_shutdown_calls", "sends_refused_on_a_closed_socket"]
 SOAK = True   # also judged by the whole-run monitors of the soak sessions (vf/soak.py)
 # (the instants this check judges are measured against non-eager task start-up: DESIGN 12)
 EAGER_OK = False
@@ -447,6 +447,9 @@ def cases(tier, seed):
     yield {"gen": 4, "tl": "sock_stalled", "trigs": [["iter", k] for k in range(18, 27)],
            "reinit": False, "double": "overlap", "idle": 1000.0, "anchor": "D18b"}
     for gen in (4, 5):
+        for state in ("never_opened", "closed", "closed_in_backoff", "closed_twice"):
+            yield {"k": "closed_send", "gen": gen, "state": state}
+    for gen in (4, 5):
         for i in range(2 if tier == "quick" else 60):
             yield {"k": "cycles", "gen": gen, "cycles": 12 if tier == "quick" else 40,
                    "seed": rnd.randrange(1 << 30)}
@@ -664,9 +667,84 @@ def run_cycles(case):
             "obs": obs, "sample": {"gen": gen, "cycles": case["cycles"]}}
 
 
+def run_closed_send(case):
+    """Socket level: on a socket that was never opened, or has been closed (from the connected
+    state, during the back-off, twice), every way of sending raises the not-open error -
+    whatever the retry policy - and nothing is written, queued or connected."""
+    import pyairtouch.comms.socket as psock
+    from .. import sockscript as S
+    from ..sockworld import SockWorld, quiesce
+    gen, state = case["gen"], case["state"]
+    viol, obs = [], {}
+
+    async def main(loop, net, log):
+        w = SockWorld(gen, loop, net, log)
+        if state != "never_opened":
+            if state == "closed_in_backoff":
+                net.default = ("refuse", 0.0)
+                await w.sock.open_socket()
+                await asyncio.sleep(0.7)
+            else:
+                await w.open()
+                await quiesce(loop)
+            await w.sock.close()
+            if state == "closed_twice":
+                await w.sock.close()
+            await quiesce(loop)
+        net.default = ("accept", 0.0)
+        mark = log.mark()
+        pols = {"RETRY_CONNECTED": psock.RETRY_CONNECTED,
+                "RETRY_IDEMPOTENT": psock.RETRY_IDEMPOTENT,
+                "RETRY_NON_IDEMPOTENT": psock.RETRY_NON_IDEMPOTENT}
+        for name, (r, life) in S.POLICIES.items():
+            pols[name] = psock.RetryPolicy(r, life)
+        reg = H.registry(gen)
+        for i, (name, pol) in enumerate(sorted(pols.items())):
+            for entry in ("send", "send_with_header"):
+                msg = S.make_message(gen, S.KINDS[i % 3], 9000 + i)[0]
+                try:
+                    if entry == "send":
+                        await w.sock.send(msg, pol)
+                    else:
+                        hdr = reg.header_factory.create_from_message(
+                            msg, reg.get_encoder(msg.message_id).size(msg))
+                        await w.sock.send_with_header(hdr, msg, pol)
+                    got = "returned"
+                except psock.NotOpenError:
+                    got = "NotOpenError"
+                except Exception as e:  # noqa: BLE001
+                    got = repr(e)
+                if got != "NotOpenError":
+                    viol.append({"mechanism": "send-after-shutdown-not-refused:socket-level",
+                                 "detail": {"gen": gen, "state": state, "policy": name,
+                                            "entry": entry, "got": got}})
+                else:
+                    obs["sends_refused_on_a_closed_socket"] = obs.get(
+                        "sends_refused_on_a_closed_socket", 0) + 1
+        await asyncio.sleep(40.0)
+        await quiesce(loop)
+        stray = [(k, H.jsonable(d)) for _, _, k, d in log.since(mark)
+                 if k in ("NET.connect_attempt", "NET.write", "NET.open")]
+        if stray:
+            viol.append({"mechanism": "closed-socket-touches-the-network",
+                         "detail": {"gen": gen, "state": state, "events": stray[:4]}})
+        if w.sock.is_open or w.sock.is_connected:
+            viol.append({"mechanism": "closed-socket-reports-open",
+                         "detail": {"gen": gen, "state": state}})
+
+    _, log, st = H.run(main)
+    if st != "ok":
+        viol.append({"mechanism": "shutdown-scenario-hang", "detail": {"status": st}})
+    n = obs.get("sends_refused_on_a_closed_socket", 0)
+    return {"violations": H.cap(viol), "evals": max(n, 1), "decided": n, "distinct": n,
+            "obs": obs, "sample": {"gen": gen, "state": state}}
+
+
 def run_case(case):
     if case.get("k") == "cycles":
         return run_cycles(case)
+    if case.get("k") == "closed_send":
+        return run_closed_send(case)
     gen, tl = case["gen"], case["tl"]
     viol, obs = [], {}
     dec = 0
